@@ -73,9 +73,7 @@ fn bodies(ctx: &mut Ctx) -> Vec<Vec<u8>> {
 
 /// Bodies whose extra value is nested close to the CBOR layer's recursion limit, each paired with the
 /// same body one nesting level shallower (for the attribution of the known boundary finding).
-fn deep_bodies(ctx: &mut Ctx) -> Vec<(Vec<u8>, Vec<u8>)> {
-    let d = *ctx.rng.pick(&[100usize, 120, 125, 126, 127, 128, 129, 130, 200, 250, 251, 252, 253, 254, 255]);
-    let kind = (ctx.rng.below(3)) as u8;
+fn deep_bodies(d: usize, kind: u8) -> Vec<(Vec<u8>, Vec<u8>)> {
     let mk = |d: usize| -> Vec<Vec<u8>> {
         let mut h = vec![0xa1, 0x0a];
         h.extend_from_slice(&crate::hostile::b4_nested(d, kind));
@@ -100,6 +98,9 @@ fn deep_bodies(ctx: &mut Ctx) -> Vec<(Vec<u8>, Vec<u8>)> {
     };
     mk(d).into_iter().zip(mk(d - 1)).collect()
 }
+
+/// ciborium's documented default recursion limit (the known boundary finding is tied to it)
+const CBOR_LAYER_DEFAULT_LIMIT: usize = 256;
 
 fn views_equal(a: &capi::CVal, b: &capi::CVal) -> bool {
     let mut n = Notes(vec![]);
@@ -132,7 +133,12 @@ fn check_tagged_input_ex(ctx: &mut Ctx, ty: Ty, head_tag: Option<u64>, single: b
             // known boundary finding: the tag itself consumes one level of the CBOR layer's recursion
             // budget, so a body nested exactly to the limit is accepted untagged but not tagged.
             // Attribution is counterfactual: the same body one level shallower must be accepted.
-            if let Some(sh) = shallower {
+            // The finding is that one boundary and nothing else: the extra value sits at nesting
+            // level DEEP_LEVELS - 1 below the message array and the header map, where the CBOR layer's
+            // documented default budget of 256 levels is exactly used up by the body alone.  A
+            // tagged decoder that gives up at any other depth keeps its own signature.
+            let at_default_limit = what.ends_with(&format!("extra value nested {} deep", CBOR_LAYER_DEFAULT_LIMIT - 2));
+            if let (Some(sh), true) = (shallower, at_default_limit) {
                 let mut y = x[..x.len() - body.len()].to_vec();
                 y.extend_from_slice(sh);
                 if capi::from_tagged_slice(ty, &y).is_ok() && capi::from_slice(ty, sh).is_ok() {
@@ -170,7 +176,7 @@ impl Check for C14 {
             Phase { name: "no tag / doubly tagged (same, different, 55799 outside or inside) / tag inside the array", cases: scale(if q { 2000 } else { 50000 }, b), exhaustive: false },
             Phase { name: "to_tagged_vec == registered tag head || to_vec; round trip; cross-type exclusivity", cases: scale(if q { 6000 } else { 200000 }, b), exhaustive: false },
             Phase { name: "the crate's TAG constants equal RFC 8152 Table 1", cases: 6, exhaustive: true },
-            Phase { name: "bodies with an extra value nested 100-255 deep (the CBOR layer's limit is 256) under the registered tag in every head width", cases: scale(if q { 400 } else { 10000 }, b), exhaustive: false },
+            Phase { name: "bodies with an extra value nested 1-258 deep (arrays, maps, tags; the CBOR layer's default limit is 256) under the registered tag in every head width", cases: 258 * 3, exhaustive: true },
         ]
     }
     fn run_case(&self, ctx: &mut Ctx, phase: usize, idx: u64) {
@@ -292,7 +298,11 @@ impl Check for C14 {
                 }
             }
             4 => {
-                for (body, shallower) in deep_bodies(ctx) {
+                // every depth from 1 to 258, each of the three nesting kinds (arrays, maps, tags)
+                let d = 1 + (idx % 258) as usize;
+                let kind = ((idx / 258) % 3) as u8;
+                let what = format!("single tag, extra value nested {} deep", d);
+                for (body, shallower) in deep_bodies(d, kind) {
                     for ty in TAGGED_TYPES {
                         let t = ty.tag().unwrap();
                         for n in [t, t + 1, t + (1 << 32)] {
@@ -300,7 +310,7 @@ impl Check for C14 {
                                 let mut x = head.clone();
                                 x.extend_from_slice(&body);
                                 ctx.nontrivial_bytes(&x);
-                                check_tagged_input_ex(ctx, ty, Some(n), true, &x, &body, "single tag, deeply nested body", Some(&shallower));
+                                check_tagged_input_ex(ctx, ty, Some(n), true, &x, &body, &what, Some(&shallower));
                             }
                         }
                     }
